@@ -28,3 +28,93 @@ Section SkipEq.
   Proof. intro H. unfold skip_entry_with. rewrite H. reflexivity. Qed.
 End SkipEq.
 
+
+(* ---------------------------------------------------------------- the worklist visits the descent tree *)
+Lemma Forall2_rev' {A B} (R : A -> B -> Prop) l1 l2 : Forall2 R l1 l2 -> Forall2 R (rev l1) (rev l2).
+Proof.
+  induction 1 as [|x y l1 l2 Hxy H IH]; cbn [rev]; [constructor|].
+  apply Forall2_app; [exact IH|constructor; [exact Hxy|constructor]].
+Qed.
+
+Lemma perm_concat_rev {A} (l : list (list A)) : Permutation (concat (rev l)) (concat l).
+Proof.
+  induction l as [|x r IH]; cbn [rev concat]; [constructor|].
+  rewrite concat_app. cbn [concat]. rewrite app_nil_r.
+  eapply Permutation_trans; [apply Permutation_app_comm|]. apply Permutation_app_head. exact IH.
+Qed.
+
+Section Worklist.
+  Variable fs : fsys.
+  Variable max_depth : option nat.
+  Variable max_filesize : option N.
+  Variable follow_links : bool.
+  Variable has_filter : bool.
+  Variable filter : dent -> bool.
+  Variable should_skip : igstack -> dent -> bool.
+
+  Let step := run_one fs max_depth max_filesize follow_links has_filter filter should_skip.
+
+  (* the descent tree below a work item: its own outputs (the entry itself, loop and I/O errors met
+     while listing it), then the descent of every work item it generates.  Inductive = least: only
+     finite descents have a derivation. *)
+  Inductive descent : work -> list out -> Prop :=
+  | Descent w os ws each :
+      step w = (os, ws) -> Forall2 descent ws each -> descent w (os ++ concat each).
+
+  Lemma par_loop_descent fuel : forall stack acc outs,
+    par_loop fs max_depth max_filesize follow_links has_filter filter should_skip fuel stack acc = Some outs ->
+    exists each, Forall2 descent stack each /\ Permutation outs (acc ++ concat each).
+  Proof.
+    induction fuel as [|fuel IH]; intros stack acc outs H.
+    - destruct stack as [|w rest]; cbn [par_loop] in H; [|discriminate].
+      injection H as <-. exists []. split; [constructor|]. cbn [concat]. rewrite app_nil_r. apply Permutation_refl.
+    - destruct stack as [|w rest]; cbn [par_loop] in H.
+      + injection H as <-. exists []. split; [constructor|]. cbn [concat]. rewrite app_nil_r. apply Permutation_refl.
+      + fold step in H. destruct (step w) as [os ws] eqn:ES.
+        destruct (IH _ _ _ H) as (each & HF & HP).
+        apply Forall2_app_inv_l in HF as (e1 & e2 & H1 & H2 & ->).
+        apply Forall2_rev' in H1. rewrite rev_involutive in H1.
+        exists ((os ++ concat (rev e1)) :: e2). split.
+        * constructor; [|exact H2]. econstructor; [exact ES|exact H1].
+        * eapply Permutation_trans; [exact HP|].
+          rewrite concat_app. cbn [concat]. rewrite <- !app_assoc.
+          apply Permutation_app_head. apply Permutation_app_head.
+          apply Permutation_app_tail. apply Permutation_sym. apply perm_concat_rev.
+  Qed.
+
+  (* roots: WalkParallel::visit's messages, then the workers *)
+  Lemma par_walk_descent same_fs fuel roots outs :
+    par_walk fs max_depth max_filesize follow_links same_fs has_filter filter should_skip fuel roots = Some outs ->
+    exists each,
+      Forall2 descent (rev (flat_map snd (map (par_root fs same_fs) roots))) each /\
+      Permutation outs (flat_map fst (map (par_root fs same_fs) roots) ++ concat each).
+  Proof. unfold par_walk. apply par_loop_descent. Qed.
+
+  (* a symlink to a directory that is already among the ancestors is reported, never descended *)
+  Lemma loop_never_extended_proof ig dir depth ent c :
+    generate_work fs max_filesize follow_links has_filter filter should_skip ig dir depth ent = GWork c ->
+    de_follow c = true -> de_is_dir c = true ->
+    existsb (fun a => same_handle fs (de_ino c) (snd a)) ig = false.
+  Proof.
+    unfold generate_work. intros H HF HD.
+    destruct (follow_links && de_is_symlink (from_entry fs dir depth ent)) eqn:E1.
+    - destruct (from_path fs (de_path (from_entry fs dir depth ent)) depth (de_ino (from_entry fs dir depth ent)) true)
+        as [e1|] eqn:E2; [|discriminate].
+      destruct (de_is_dir e1 && check_symlink_loop fs ig (de_ino e1)) eqn:E3; [discriminate|].
+      destruct (par_skip fs max_filesize has_filter filter should_skip ig e1); [discriminate|].
+      injection H as <-. rewrite HD in E3. cbn [andb] in E3. exact E3.
+    - destruct (par_skip fs max_filesize has_filter filter should_skip ig (from_entry fs dir depth ent)); [discriminate|].
+      injection H as <-. cbn [from_entry de_follow] in HF. discriminate.
+  Qed.
+
+  (* and it is reported: the same situation yields the Loop error *)
+  Lemma loop_reported_proof ig dir depth ent e1 :
+    follow_links = true -> de_is_symlink (from_entry fs dir depth ent) = true ->
+    from_path fs (de_path (from_entry fs dir depth ent)) depth (snd ent) true = Some e1 ->
+    de_is_dir e1 = true -> existsb (fun a => same_handle fs (de_ino e1) (snd a)) ig = true ->
+    generate_work fs max_filesize follow_links has_filter filter should_skip ig dir depth ent = GOut (OLoop (de_path e1)).
+  Proof.
+    intros HF HS HP HD HL. unfold generate_work. rewrite HF, HS. cbn [andb from_entry de_ino] in *. rewrite HP, HD.
+    unfold check_symlink_loop. rewrite HL. reflexivity.
+  Qed.
+End Worklist.
